@@ -114,6 +114,11 @@ def main(argv):
             undecided.append('%s: lost anchor: %s' % (unit, r.detail))
             continue
         a = r.assembled
+        base_sha = runner.baseline_fn_sha()
+        for f in a.fns:
+            lab = '%s::%s' % (f.file, f.item)
+            if f.lost and base_sha.get(lab) == f.sha256:
+                undecided.append('%s: annotation lost on an UNCHANGED function %s (framework defect): %s' % (unit, f.item, '; '.join(f.lost)[:300]))
         obs = [o for o in runner.static_obligations(a) if pid in o['tags']]
         if r.status in ('frontend', 'internal', 'rlimit'):
             undecided.append('%s: %s: %s' % (unit, r.status, r.detail[:600]))
